@@ -74,6 +74,49 @@ CLAIMED = {
             "structural onset-group rules on 324 fixed shapes over the mini schema.",
             "stub tags / stub time-point strings; message text of three errors muted (formats symbolic names); names "
             "<=2 chars quick, <=4 thorough; Delay shifting, equal-onset merging and row mapping are pandas and outside."),
+    "C01": ("3/C01",
+            "Bounded, solver-decided rule kernels (the whole validator on raw symbolic text is out of reach): delimiter/"
+            "parenthesis rules for every printable-ASCII string up to the bound against a token grammar; forbidden "
+            "characters for every Unicode string; tag-group/top-level placement for every combination of reserved "
+            "names and attribute bits on 1-3 tags; per-tag rules (unknown tag, forbidden extension, extension term "
+            "that is a node, requireChild leaf, stray placeholder, foreign prefix) for every tag text up to the bound "
+            "on the mini schema against an independent resolver; issue kind -> published code. Value/unit rules are "
+            "decided under C11, duplicates under C04, Def rules under C09, temporal rules under C10.",
+            "mini schema stands for the shapes of the bundled vocabularies; stub tags for the placement kernel; "
+            "ASCII where casefold is on the path; annotations longer than the bounds and the 1200-tag vocabularies "
+            "are outside."),
+    "C05": ("3/C05",
+            "Bounded, solver-decided for the text grammar shared by MediaWiki and TSV: the real writer functions write "
+            "one entry/attribute string/header line from symbolic names, attribute values and descriptions (over the "
+            "schema's own character classes), the real reader functions read it back, and both an independent line "
+            "reader and the library's own entry equality must agree with the original; a schema merged from several "
+            "libraries refuses to save through all entry points. XML, TSV files (pandas), whole-schema and "
+            "cross-format equality are NOT decided.",
+            "one line at a time; pieces of 2-5 characters; attribute names concrete per shape; the tag-name regex is "
+            "answered from the writer's layout during symbolic runs (real regex on replay); one recorded known "
+            "finding (literal <nowiki> token inside a description)."),
+    "C07": ("3/C07",
+            "Bounded, solver-decided location arithmetic only: for a row combined from 2-3 symbolic cells every tag/"
+            "group span selects exactly that item's text inside its own cell's stretch of the comma-joined row text; "
+            "equal-onset grouping (maximal runs, n/a skipped); context-stack stamping of row/column labels. Totality "
+            "of file validation, row-by-row equality and row shuffling go through pandas and are NOT decided.",
+            "NoSchema stub; cells of 1-3 characters; integer onsets in a small range (the function hashes them)."),
+    "C13": ("3/C13",
+            "Bounded, solver-decided on a two-schema group (mini schema unprefixed and as 'p:'): namespace extraction "
+            "for every Unicode string up to the bound; 'p:'+t in the group is judged exactly as t against p's schema "
+            "alone (same node, remainder, issue codes, resolved inside the right member) and unprefixed t as against "
+            "the unprefixed schema; unloaded / non-alphabetic prefixes are errors; set_schema_prefix syntax; two "
+            "schemas under one prefix and the same library twice in a version list are refused.",
+            "mini schema twice instead of real library pairings; partnered merging and clash detection between real "
+            "libraries (file loading) are outside; prefix/version texts of 1-3 characters."),
+    "C16": ("3/C16",
+            "Bounded, solver-decided: BIDS file-name parsing (totality, round trip), the applicability predicate "
+            "(same suffix, ancestor-or-self directory, entity subset with equal values), the root-first chain walk, "
+            "the deeper-overrides-shallower merge, and the real BidsFileGroup constructor's choice of merged sidecar "
+            "per data file, on symbolic entity maps/suffixes/directories against an independent BIDS inheritance "
+            "reference. Directory discovery (os.walk), dataset validation and the CLI are NOT decided.",
+            "stubbed discovery (given file objects), module-local open/json for sidecar contents; 0-3 sidecars, "
+            "1-character labels (quick)."),
 }
 
 NOT_APPLICABLE = {
